@@ -1026,7 +1026,16 @@ func (vm *VirtualMachine) reloadCode(main *compiler.Code) *code {
 	if !ok {
 		panic("main code not loaded")
 	}
-	delete(vm.loadedCode, main)
+	// Forget the wrapped main code together with the wrapped code of its
+	// functions: those share the old globals array and would keep reading and
+	// writing it. They are wrapped again, on the new array, when next needed.
+	vm.cloneMutex.Lock()
+	for cc := range vm.loadedCode {
+		if cc.Root() == main {
+			delete(vm.loadedCode, cc)
+		}
+	}
+	vm.cloneMutex.Unlock()
 	newWrappedMain := vm.loadCode(main)
 	copy(newWrappedMain.Globals, oldWrappedMain.Globals)
 	return newWrappedMain
